@@ -221,6 +221,12 @@ def main():
     un = ilgen.corpus(2700 + rep.seed, 6, profile="const", widths=(32,), skeletons=["unreachable_pred", "unreachable_block"], extra=extra_const)
     for f in un: f["meta"]["initialised"] = True
     fs += un
+    # blocks whose instruction indices are not dense (positions differ from indices)
+    holed = ilgen.corpus(2900 + rep.seed, n // 4, profile="const", widths=(32,), extra=extra_const)
+    hr = random.Random(rep.seed + 11)
+    for f in holed:
+        ilgen.add_holes(f, hr); f["meta"]["holes"] = True; f["meta"]["initialised"] = True
+    fs += holed
     fs += ilcheck.lifted_corpus(rep.tier)
     items = [{"f": f, "tier": rep.tier} for f in fs]
     results = common.pmap(check_one, items, chunksize=2)
